@@ -7,7 +7,8 @@ are shared with its neighbours, and the writers of neighbouring objects run conc
 store lock. The theorems below are about `BB.SectorWriter` (model of `Put`, `Write`, `flush` in
 block_device_backed_block_allocator.go) and hold for every sector size, every sequence of object sizes
 and contents, every chunking of every writer's data, and every interleaving of `Put`, `Write` and `flush`
-calls of any number of writers, including writers that stop half way (failed uploads).
+calls of any number of writers, including writers that stop half way (failed uploads) and writers whose device
+write fails at any of the `WriteAt` calls a `Write` makes (`Ev.writeFail`).
 -/
 namespace BB.C01Sector
 open BB.SectorWriter
@@ -21,6 +22,7 @@ theorem run_inv {S : Nat} (hS : 0 < S) (objs : List (List Nat)) (evs : List Ev) 
     cases e with
     | alloc => obtain ⟨sec', inv'⟩ := inv_alloc hS inv; exact ih _ sec' inv'
     | write i n => exact ih _ sec (inv_write hS inv i n)
+    | writeFail i n k => exact ih _ sec (inv_writeFail hS inv i n k)
     | flush i => exact ih _ sec (inv_flush hS inv i)
 
 /-- Every reachable state of the block satisfies the invariant. -/
@@ -93,14 +95,24 @@ theorem step_total {S : Nat} (hS : 0 < S) (objs : List (List Nat)) (s : Sys) (se
     cases hi : s.ws[i]? with
     | none => simp only [Sys.step, hi, Nat.add_zero]
     | some r =>
-      cases hfl : r.flushed with
-      | true => simp only [Sys.step, hi, hfl, if_true, Nat.add_zero]
-      | false => simp only [Sys.step, hi, hfl, Bool.false_eq_true, if_false, Nat.add_zero]
+      by_cases hfd : r.flushed = true ∨ r.dead = true
+      · simp only [Sys.step, hi, hfd, if_true, Nat.add_zero]
+      · simp only [Sys.step, hi, hfd, if_false, Nat.add_zero]
+  | writeFail i n k =>
+    cases hi : s.ws[i]? with
+    | none => simp only [Sys.step, hi, Nat.add_zero]
+    | some r =>
+      by_cases hfd : r.flushed = true ∨ r.dead = true
+      · simp only [Sys.step, hi, hfd, if_true, Nat.add_zero]
+      · simp only [Sys.step, hi, hfd, if_false, Nat.add_zero]
+        generalize r.w.writeFail s.m ((r.data.drop r.c).take n) k = res
+        obtain ⟨m', ow⟩ := res
+        cases ow <;> rfl
   | flush i =>
     cases hi : s.ws[i]? with
     | none => simp only [Sys.step, hi, Nat.add_zero]
     | some r =>
-      by_cases hc : r.flushed = true ∨ r.c ≠ r.data.length
+      by_cases hc : r.flushed = true ∨ r.dead = true ∨ r.c ≠ r.data.length
       · simp only [Sys.step, hi, hc, if_true, Nat.add_zero]
       · simp only [Sys.step, hi, hc, if_false, Nat.add_zero]
 
@@ -121,6 +133,7 @@ theorem guarded_total {S : Nat} (hS : 0 < S) (objs : List (List Nat)) (sectors :
       have := hasSpace_le hS h1 hcap
       exact ih _ sec' inv' (by rw [ht]; exact this) hg.2
     | write i n => exact ih _ sec (inv_write hS inv i n) (by rw [ht]; exact hcap) hg.2
+    | writeFail i n k => exact ih _ sec (inv_writeFail hS inv i n k) (by rw [ht]; exact hcap) hg.2
     | flush i => exact ih _ sec (inv_flush hS inv i) (by rw [ht]; exact hcap) hg.2
 
 /-- **Capacity.** When every `Put` is preceded by a successful `HasSpace` (as `findBlockWithSpace` does), the
